@@ -54,6 +54,10 @@ def check(ctx: Ctx):
     c02.check_single_instance(ctx)
     c04.check_chained_replacement(ctx)
     c04.check_relabel(ctx)
+    from . import c09
+
+    c03._guarded(ctx, "R09.1", c09.check_codec_width)
+    c03._guarded(ctx, "R09.1", c09.check_codec_width_relational)
 
 
 _R = "panoptica/panoptica_result.py"
